@@ -69,6 +69,65 @@ def one_run(program, plan=None):
     return common.one_run(program, plan)
 
 
+def d16_canary():
+    """Dedicated scenario for known finding D16 (deterministic: the cyclic collector is kept
+    out while it runs).  A task that iterates an async generator of usim *bound to a local
+    name* is closed by its scope while suspended in ``__anext__``.  On CPython 3.12 closing
+    does not reach the generator (``asend.close()`` is a no-op) and the frame object kept alive
+    by the traceback of an earlier wake-up still references the generator, so first()'s
+    internal scope lives on and later wakes the closed coroutine."""
+    import gc
+    import usim
+    from usim import Scope, time
+
+    async def slow(delay):
+        await (time + delay)
+        return delay
+
+    async def consumer():
+        await (time + 1)
+        iterator = usim.first(slow(5), slow(6))
+        async for _ in iterator:
+            pass
+
+    async def main():
+        try:
+            async with Scope() as scope:
+                scope.do(consumer())
+                await (time + 2)
+                raise KeyError('abort')
+        except KeyError:
+            pass
+        await (time + 10)
+
+    sess = Session()
+    was_enabled = gc.isenabled()
+    gc.disable()
+    try:
+        root = main()
+        kind, exc = sess.run(root)
+    finally:
+        if was_enabled:
+            gc.enable()
+    gc.collect()
+    if kind == 'exc' and isinstance(exc, RuntimeError) and 'cannot reuse already awaited' in str(exc):
+        return [{'mechanism': 'closed-while-iterating-named-asyncgen',
+                 'msg': 'run() ended with RuntimeError(cannot reuse already awaited coroutine): '
+                        'a task closed while suspended in `async for` over first() held in a '
+                        'local variable is resumed by first()\'s left-over internal scope',
+                 'case': {'canary': 'd16'}}]
+    if kind != 'ok':
+        return [{'mechanism': 'run-ended-with-foreign:%s' % type(exc).__name__,
+                 'msg': 'D16 canary ended with %r' % (exc,), 'case': {'canary': 'd16'}}]
+    return []
+
+
 def run_case(case):
+    if case.get('canary') == 'd16':
+        return {'evals': 1, 'sigs': [], 'stats': {'canary_runs': 1}, 'violations': d16_canary()}
     program, rng = build(case)
-    return common.explore(case, program, rng, relevant, nontrivial)
+    result = common.explore(case, program, rng, relevant, nontrivial)
+    if case['index'] == 0 and case.get('plan') is None:
+        result['violations'] += d16_canary()
+        result['stats']['canary_runs'] = 1
+    return result
